@@ -11,6 +11,9 @@ storage index of a real in-process StorageServer and, as one line, on the Lean d
   ["put", sharenum, rle-bytes]    (fabricated container file: v1 containers, immutable shares)
   ["order"]                       (tell the model the directory listing order of the bucket)
   ["addlease", now, avail, renew, cancel]        ["renew", now, secret]
+  ["cancel", sharenum, mode, cancel_secret]      sf.cancel_lease on one share file; mode "secret" passes the
+                                                 cleartext secret, mode "crawler" passes lease.cancel_secret of the
+                                                 matching lease read through get_leases (as LeaseCheckingCrawler does)
 All byte strings are hex ('-' = empty).
 """
 import os
@@ -86,6 +89,9 @@ def secrets_of(hist):
             s.add(op[3]); s.add(op[4])
         elif op[0] == "renew":
             s.add(op[2])
+        elif op[0] == "cancel":
+            s.add(op[3])
+            s.add(hx(b"\x00" * 32))       # the blank lease's secrets are hashed too in a v2 container
     return sorted(s)
 
 
@@ -171,6 +177,37 @@ class Impl:
                 out.append((li.owner_num, li.get_expiration_time(), li.renew_secret, li.cancel_secret, li.nodeid or b""))
             res[n] = out
         return res
+
+    def open_share(self, n):
+        from allmydata.storage.mutable import MutableShareFile
+        from allmydata.storage.immutable import ShareFile
+        p = self.share_files().get(n)
+        if p is None:
+            return None
+        with open(p, "rb") as f:
+            header = f.read(32)
+        if MutableShareFile.is_valid_header(header):
+            return MutableShareFile(p, self.ss)
+        return ShareFile(p)
+
+    def cancel(self, n, mode, secret, info):
+        sf = self.open_share(n)
+        if sf is None:
+            return "E:NoShare"
+        arg = secret
+        if mode == "crawler":
+            try:
+                for l in sf.get_leases():
+                    if l.is_cancel_secret(secret):
+                        arg = l.cancel_secret          # cleartext (v1) or _HashedCancelSecret (v2)
+                        break
+            except Exception:  # noqa
+                pass
+        try:
+            return "ok:%d" % sf.cancel_lease(arg)
+        except Exception as e:  # noqa
+            info["exc"] = e
+            return errname(e)
 
     def rtw(self, op):
         (_, now, avail, we, renew, cancel, rl, tw, rv) = op
@@ -264,6 +301,9 @@ def run_history(impl, hist, hooks=None, precheck=True):
             except Exception as e:  # noqa
                 info["exc"] = e
                 outs.append(errname(e))
+        elif kind == "cancel":
+            toks.append("cancel|%d|%s" % (op[1], op[3]))
+            outs.append(impl.cancel(op[1], op[2], unhx(op[3]), info))
         else:
             raise ValueError("unknown op %r" % (op,))
         if hooks:
@@ -296,6 +336,27 @@ def fabricate_mutable(version, nodeid, we, data, leases, extra_gap=0):
     extra = leases[4:]
     body += struct.pack(">L", len(extra)) + b"".join(rec(l) for l in extra)
     return body
+
+
+def parse_leases(raw):
+    """Live lease records of a container file, parsed from the documented layout (harness side, independent of
+    get_leases): [(slot, owner, expire, stored_renew, stored_cancel)]; slots with owner 0 are empty."""
+    out = []
+    if raw[:14] == b"Tahoe mutable ":
+        (ext,) = struct.unpack(">Q", raw[92:100])
+        (nextra,) = struct.unpack(">L", raw[ext:ext + 4])
+        offs = [100 + i * 92 for i in range(4)] + [ext + 4 + i * 92 for i in range(nextra)]
+        for slot, o in enumerate(offs):
+            (owner, exp, r, c, nid) = struct.unpack(">LL32s32s20s", raw[o:o + 92])
+            if owner != 0:
+                out.append((slot, owner, exp, r, c))
+    else:
+        (ver, _, n) = struct.unpack(">LLL", raw[:12])
+        lo = len(raw) - n * 72
+        for slot in range(n):
+            (owner, r, c, exp) = struct.unpack(">L32s32sL", raw[lo + slot * 72: lo + slot * 72 + 72])
+            out.append((slot, owner, exp, r, c))
+    return out
 
 
 def fabricate_immutable(version, data, leases):
